@@ -241,3 +241,31 @@ void h_dml(void)
   VERIF_CANARY;
 }
 #endif
+
+/* ------------------------------------------------------------ dijkstra_init: one edge (u,v,w) appends v with weight w to u's adjacency and u with
+ * weight w to v's -- the weight exactly as given (1 when no weights are supplied), whatever its magnitude */
+#if defined(JOB_init_body)
+#undef double            /* this job runs the template at T = double */
+void w_init_body(unsigned u, unsigned v, double w, int weighted);
+unsigned long verif_degree(unsigned k); unsigned long verif_nweights(unsigned k); double verif_weight(unsigned k, unsigned long j); int verif_neighbour_is(unsigned k, unsigned long j, unsigned t);
+static unsigned long long bitsd(double d) { union { double d; unsigned long long u; } c; c.d = d; return c.u; }
+void h_init_body(void)
+{
+  unsigned u = U_IDX, v = V_IDX; double w; int weighted;
+  __CPROVER_assume(weighted == 0 || weighted == 1);
+  w_init_body(u, v, w, weighted);
+  double want = weighted ? w : 1.0;
+#if defined(PART_WEIGHTS)
+  if (u != v)
+    __CPROVER_assert(verif_nweights(u) == 1 && verif_nweights(v) == 1 && bitsd(verif_weight(u, 0)) == bitsd(want) && bitsd(verif_weight(v, 0)) == bitsd(want), "SPEC the adjacency carries exactly the given weight, once at each end");
+  else
+    __CPROVER_assert(verif_nweights(u) == 2 && bitsd(verif_weight(u, 0)) == bitsd(want) && bitsd(verif_weight(u, 1)) == bitsd(want), "SPEC a self-loop's weight is listed twice, exactly as given");
+#else
+  if (u != v)
+    __CPROVER_assert(verif_degree(u) == 1 && verif_degree(v) == 1 && verif_neighbour_is(u, 0, v) && verif_neighbour_is(v, 0, u), "SPEC each end lists the other end, once");
+  else
+    __CPROVER_assert(verif_degree(u) == 2 && verif_neighbour_is(u, 0, u) && verif_neighbour_is(u, 1, u), "SPEC a self-loop lists the node twice");
+#endif
+  VERIF_CANARY;
+}
+#endif
